@@ -36,6 +36,7 @@ Chk(ok, kind, e, name) == IF ok THEN TRUE ELSE Fail(kind, e, name)
 
 ImplOf(e) ==
   CASE e.a = "AppBegin" -> AppBegin
+    [] e.a = "AppSet" -> DoAppSet /\ e.args.err = ""
     [] e.a = "RolBegin" -> RolSplit
     [] e.a = "SetHW" -> DoSetHW(e.args.h)
     [] e.a = "SetHW2" -> DoSetHW2(e.args.h1, e.args.h2)
@@ -54,10 +55,13 @@ TraceNext ==
   /\ LET e == Trace[l] IN
      /\ Bind(e)
      /\ IF e.a = "Open" THEN TRUE
-        ELSE IF e.a = "Quiet" THEN
+        ELSE IF e.a \in {"Quiet", "Commit"} THEN
              \* all gates open until nothing but blocked readers is left: many
-             \* deliveries in one line (C03_Run below judges the whole run)
+             \* deliveries in one line (C03_Run below judges the whole run).
+             \* "Commit" = the epilogue of every behaviour: SetHighWatermark(log
+             \* end), then quiescence again - now the whole log is owed
              /\ Chk(P_HW, "P", e, "C03_HWMonotone")
+             /\ Chk(e.a = "Commit" => (P_HWSet({e.args.h}) /\ hw' = Newest'), "P", e, "C03_HWMonotone")
              /\ Chk(\A r \in Readers : Len(del'[r]) >= Len(del[r])
                                         /\ SubSeq(del'[r], 1, Len(del[r])) = del[r], "P", e, "C03_Delivery")
              /\ Chk(P_NoDeath, "P", e, "C03_ReaderFailed")
@@ -72,6 +76,8 @@ TraceNext ==
              /\ Chk(P_RoEnd, "P", e, "C03_RoEnd")
              /\ Chk(ImplOf(e), "I", e, "step")
      /\ Chk(C03_Run', "P", e, "C03_Run")
+     /\ Chk(C03_Wakeable', "P", e, "C03_Wakeable")
+     /\ Chk(C03_NoLostWakeup', "P", e, "C03_NoLostWakeup")
      /\ Chk(TypeOK', "I", e, "TypeOK")
 
 TraceSpec == TraceInit /\ [][TraceNext]_tvars
